@@ -1154,6 +1154,18 @@ impl<'ast, 'res> Resolver<'ast, 'res> {
         }
     }
 
+    /// A variable of an enclosing function may not be declared yet in the activation
+    /// that owns it when this function runs (a call placed before the `make`): reading
+    /// it then ends the program with a runtime error.
+    fn classify_var_read(&self, var: &str) -> ExprClass {
+        match self.lookup_var_info(var) {
+            Some((_, local)) if self.facts.locals[local.0 as usize].owner != self.current_owner => {
+                ExprClass::PureMayTrap
+            }
+            _ => ExprClass::PureNoTrap,
+        }
+    }
+
     fn classify_condition(&self, cond: ExprRef<'ast>) -> ExprClass {
         let class = self.classify_expr(cond);
         if self.type_only_known_at_runtime(cond) {
@@ -1165,10 +1177,17 @@ impl<'ast, 'res> Resolver<'ast, 'res> {
 
     fn classify_expr(&self, expr: ExprRef<'ast>) -> ExprClass {
         match expr {
-            Expr::Number(..) | Expr::Bool(..) | Expr::Null(..) | Expr::Var(..) => {
-                ExprClass::PureNoTrap
-            }
-            Expr::String { .. } => ExprClass::PureNoTrap,
+            Expr::Number(..) | Expr::Bool(..) | Expr::Null(..) => ExprClass::PureNoTrap,
+            Expr::Var(v, ..) => self.classify_var_read(v),
+            Expr::String { parts, .. } => match parts {
+                StringParts::Interpolated(segments) => {
+                    segments.iter().fold(ExprClass::PureNoTrap, |class, segment| match segment {
+                        StringSegment::Variable(var) => class.join(self.classify_var_read(var)),
+                        _ => class,
+                    })
+                }
+                _ => ExprClass::PureNoTrap,
+            },
             Expr::Array { elements, .. } => {
                 elements.iter().fold(ExprClass::PureNoTrap, |class, element| {
                     class.join(self.classify_expr(element))
